@@ -10,6 +10,7 @@
 #endif
 #define TSG_NDMAX 2
 typedef struct { int rows; int version; } WaveletBasisMatrix;
+int tsg_expected_rows;      /* ghost: the size of the working set of the grid under test (bound by the contracts below) */
 typedef struct GridWavelet { int num_dimensions, num_outputs, points_n, needed_n; WaveletBasisMatrix inter_matrix; } GridWavelet;
 
 //@ stub GridWavelet_evalIntegral
@@ -26,7 +27,7 @@ int WaveletBasisMatrix_getNumRows(const WaveletBasisMatrix *m)
 __CPROVER_requires(1) __CPROVER_ensures(__CPROVER_return_value == m->rows) __CPROVER_assigns()
 ;
 void WaveletBasisMatrix_invertTransposed(const WaveletBasisMatrix *m, double *b)
-__CPROVER_requires(1) __CPROVER_ensures(1) __CPROVER_assigns(__CPROVER_object_whole(b))
+__CPROVER_requires(m->rows == tsg_expected_rows)      /* C04: the system solved is the one of the current working set (one row per point), not a stale cache */ __CPROVER_ensures(1) __CPROVER_assigns(__CPROVER_object_whole(b))
 ;
 /* the const method that fills the mutable cache */
 void GridWavelet_buildInterpolationMatrix(GridWavelet *self)
@@ -38,18 +39,24 @@ __CPROVER_assigns(self->inter_matrix)
 //@ contract GridWavelet_getQuadratureWeights
 __CPROVER_requires(__CPROVER_is_fresh(self, sizeof(*self)) && __CPROVER_is_fresh(weights, TSG_NPMAX * TSG_NDMAX * sizeof(double)))
 __CPROVER_requires(self->points_n >= 0 && self->points_n <= TSG_NPMAX && self->needed_n >= 0 && self->needed_n <= TSG_NPMAX && self->num_dimensions >= 1 && self->num_dimensions <= TSG_NDMAX)
+__CPROVER_requires(tsg_expected_rows == ((self->points_n == 0) ? self->needed_n : self->points_n))
+@WARM@
 __CPROVER_ensures(1)
-__CPROVER_assigns(__CPROVER_object_whole(weights))
+__CPROVER_assigns(__CPROVER_object_whole(weights)@CACHE@)
 //@ contract GridWavelet_getInterpolationWeights
 __CPROVER_requires(__CPROVER_is_fresh(self, sizeof(*self)) && __CPROVER_is_fresh(weights, TSG_NPMAX * TSG_NDMAX * sizeof(double)) && __CPROVER_is_fresh(x, TSG_NDMAX * sizeof(double)))
 __CPROVER_requires(self->points_n >= 0 && self->points_n <= TSG_NPMAX && self->needed_n >= 0 && self->needed_n <= TSG_NPMAX && self->num_dimensions >= 1 && self->num_dimensions <= TSG_NDMAX)
+__CPROVER_requires(tsg_expected_rows == ((self->points_n == 0) ? self->needed_n : self->points_n))
+@WARM@
 __CPROVER_ensures(1)
-__CPROVER_assigns(__CPROVER_object_whole(weights))
+__CPROVER_assigns(__CPROVER_object_whole(weights)@CACHE@)
 //@ contract GridWavelet_getDifferentiationWeights
 __CPROVER_requires(__CPROVER_is_fresh(self, sizeof(*self)) && __CPROVER_is_fresh(weights, TSG_NPMAX * TSG_NDMAX * sizeof(double)) && __CPROVER_is_fresh(x, TSG_NDMAX * sizeof(double)))
 __CPROVER_requires(self->points_n >= 0 && self->points_n <= TSG_NPMAX && self->needed_n >= 0 && self->needed_n <= TSG_NPMAX && self->num_dimensions >= 1 && self->num_dimensions <= TSG_NDMAX)
+__CPROVER_requires(tsg_expected_rows == ((self->points_n == 0) ? self->needed_n : self->points_n))
+@WARM@
 __CPROVER_ensures(1)
-__CPROVER_assigns(__CPROVER_object_whole(weights))
+__CPROVER_assigns(__CPROVER_object_whole(weights)@CACHE@)
 
 //@ harness h_getQuadratureWeights
 void h_getQuadratureWeights(void){ const GridWavelet *s = 0; double *w = 0; GridWavelet_getQuadratureWeights(s, w); __CPROVER_assert(0, "VACUITY-CANARY"); }
